@@ -798,6 +798,20 @@ def run_history(cfg, dt, hkind, restore_between, order, t):
             _, ref = hist_create("H", hkind, d, date)
             _, ref_f = hist_create(f"F{k}", hkind, d, date)
             snaps = [(r, ref_state(r)) for r in (ref, ref_f) if r is not None]
+
+            def outward():
+                """A state given in the new frame itself, converted outwards (twice, and against the twin)."""
+                loc = np.array([100.0, 200.0, -50.0, 0.1, -0.2, 0.3])
+                a = arr(twice(StateVector(loc.copy(), date, "cartesian", "H"), "EME2000"))
+                b = arr(twice(StateVector(loc.copy(), date, "cartesian", f"F{k}"), "EME2000"))
+                tp, tv = tol_pv([a, b])
+                if not (float(np.linalg.norm(a[:3] - b[:3])) <= tp and float(np.linalg.norm(a[3:] - b[3:])) <= tv):
+                    t.fail(f"history/differential/{grp}", "a frame behaves according to its current definition, whatever was registered under its name before",
+                           case, b.tolist(), a.tolist(), f"binding {k} (definition {d}) H->EME2000 differs from the twin by {float(np.linalg.norm(a[:3] - b[:3])):.3e} m")
+
+            if order == 0:  # very first use of the frame is a conversion out of it
+                outward()
+                nconv += 4
             for X, rv in probes.items():
                 x = StateVector(rv.copy(), date, "cartesian", X)
                 vias = [c for c in ("MOD", "ITRF") if c != X]
@@ -829,6 +843,9 @@ def run_history(cfg, dt, hkind, restore_between, order, t):
                 t.margin("history: round trip [m / tol]", dp, tp, case)
                 if not (dp <= tp and dv <= tv):
                     t.fail(f"history/roundtrip/{grp}", "A->B->A is the identity", case, x0.tolist(), xb.tolist(), f"{what}->{X}: {dp:.3e} m, {dv:.3e} m/s")
+            if order == 1:
+                outward()
+                nconv += 4
             for r, snap in snaps:
                 if ref_state(r) != snap:
                     now = ref_state(r)
